@@ -7,5 +7,6 @@ Definition coset_probZ (pi px py pz : Z) (n : nat) (gens : list bsf) (f : bsf) :
 Definition probZ (pi px py pz : Z) (n : nat) (v : bsf) : Z := prob Zring (pi, px, py, pz) n v.
 Definition h_nodeZ (pi px py pz : Z) fx fz n e s w : Z := h_node Zring (pi, px, py, pz) fx fz n e s w.
 Definition v_nodeZ (pi px py pz : Z) fx fz n e s w : Z := v_node Zring (pi, px, py, pz) fx fz n e s w.
+Definition delta_valZ (dims idx : list nat) : Z := delta_val Zring dims idx.
 Definition span_count (len : nat) (gens : list bsf) : nat := length (span_list len gens).
-Extraction "c10.ml" coset_probZ probZ h_nodeZ v_nodeZ ml_choice span_count.
+Extraction "c10.ml" coset_probZ probZ h_nodeZ v_nodeZ ml_choice span_count delta_valZ.
